@@ -724,6 +724,41 @@ class IntegratePlanar:
         return wind - 1 if wind > 0 else wind + 1
 
     @staticmethod
+    def winding_number_bezier(
+        points: Tuple[Tuple[float]], center: Tuple[float], depth: int = 0
+    ) -> float:
+        """
+        Angle (in turns) that a bezier curve of given control points subtends
+        when seen from center.
+
+        The curve stays inside the box of its control points, so while the
+        center is outside that box the curve subtends the same angle as its
+        chord. Otherwise the curve is divided at the middle (de Casteljau).
+        """
+        inside = True
+        for i in range(2):
+            vals = tuple(point[i] for point in points)
+            if center[i] < min(vals) or max(vals) < center[i]:
+                inside = False
+        if len(points) == 2 or not inside or depth > 48:
+            return IntegratePlanar.winding_number_linear(
+                points[0], points[-1], center
+            )
+        left, right = [points[0]], [points[-1]]
+        while len(points) > 1:
+            points = tuple(
+                ((pta[0] + ptb[0]) / 2, (pta[1] + ptb[1]) / 2)
+                for pta, ptb in zip(points[:-1], points[1:])
+            )
+            left.append(points[0])
+            right.insert(0, points[-1])
+        total = IntegratePlanar.winding_number_bezier(left, center, depth + 1)
+        total += IntegratePlanar.winding_number_bezier(
+            right, center, depth + 1
+        )
+        return total
+
+    @staticmethod
     def winding_number(
         curve: PlanarCurve,
         center: Optional[Point2D] = (0.0, 0.0),
@@ -733,7 +768,12 @@ class IntegratePlanar:
         Computes the integral for a bezier curve of given control points
         """
         assert isinstance(curve, PlanarCurve)
-        nnodes = curve.npts if nnodes is None else nnodes
+        if nnodes is None:
+            points = tuple(
+                (float(point[0]), float(point[1])) for point in curve.ctrlpoints
+            )
+            center = (float(center[0]), float(center[1]))
+            return IntegratePlanar.winding_number_bezier(points, center)
         nodes = Math.closed_linspace(nnodes)
         total = 0
         for pair_node in zip(nodes[:-1], nodes[1:]):
